@@ -36,6 +36,9 @@ K_EMPTY = K_SEQ | K_MEM | {'EMPTY_RANGE'}
 MEMCRASH = ('CRASH:ASAN', 'CRASH:SIGSEGV', 'CRASH:SIGBUS', 'CRASH:UBSAN', 'CRASH:SIGABRT')
 
 
+ANY = None
+
+
 def is_crash(v):
     return any(k.startswith('CRASH:') for k in v['kinds'])
 
@@ -76,7 +79,6 @@ def reserve_related(v, unit):
     return bool(set(v['kinds']) & (K_MEM | K_SEQ)) or is_crash(v)
 
 
-ANY = None
 
 
 def u(scen, cfgs, aks=('AE',), builds=('asan',)):
@@ -229,6 +231,16 @@ PROPS = {
             'kinds': K_STABLE, 'crash': never, 'filter': None,
             'technique': 'block identity, data_begin, per-object offsets and ledger events of consecutive recorded '
                          'states compared by Trace.tla (JudgeStability/JudgeTransfer)'},
+    'C17': {'level': 'fault_enumeration',
+            'units': {'quick': u('S7', ['F_T', 'F_N', 'V_T', 'V_N'], ('NP',)) + u('S7', ['F_N', 'V_TA'], ('PR',))
+                               + u('S7e', ['F_N', 'V_N', 'V_TA'], ('NP',)),
+                      'thorough': u('S7', ALL, ('NP', 'PR', 'AE')) + u('S7e', ALL, ('NP', 'PR'))},
+            'kinds': ANY, 'crash': crash_any, 'filter': None,
+            'technique': 'TLA+ model with allocation failure (Cntgs.tla ThrowEff): for every allocating operation in '
+                         'every reachable state of the bounded model TLC emits the operation with its 1st..k-th allocation '
+                         'failing; the ledger allocator throws at that allocation; the recorded outcome (state of every '
+                         'operand, ledger, object lifetimes, a follow-up operation on the operand, destruction of '
+                         'everything) is judged by Trace.tla'},
     'C18': {'level': 'model_checking',
             'units': {'quick': u('S1', ALL), 'thorough': u('S1', ALL, ('AE', 'NP'))},
             'kinds': ANY, 'crash': crash_any, 'filter': on_empty,
@@ -644,6 +656,15 @@ def write_evidence(pid, tier, seed, results, findings, nviol, lost, wall):
         'exhaustive': False,
         'explanation': prop['technique'],
     }
+    if prop['level'] == 'fault_enumeration':
+        fired = sum(r.get('faults', {}).get('fired', 0) for _, r in good)
+        armed = sum(r.get('faults', {}).get('armed', 0) for _, r in good)
+        distinct = {(k[1], k[2], tuple(x)) for k, r in good for x in r.get('faults', {}).get('distinct_fired', [])}
+        cov.update({'evaluations': armed, 'distinct_nontrivial': len(distinct),
+                    'rule': 'one evaluation = one operation executed with its k-th allocation armed to fail, in a state '
+                            'reached by a TLC-generated history; non-trivial and distinct = the failure actually fired, '
+                            'counted once per (parameter list, allocator kind, operation, failing allocation index)',
+                    'faults_fired': fired})
     ev = {'property_id': pid, 'tier': tier, 'seed': seed, 'level': prop['level'], 'coverage': cov,
           'assumptions': ['bounded model: constants of the scenario (see units / tools/vlib.py SCENARIOS)',
                           'only the instantiated parameter lists of harness/configs.json are bound to the code',
